@@ -80,6 +80,7 @@ type thr struct {
 	mergeSeen  bool
 	gid        int64           // goroutine id while alive
 	free       bool            // free-running (a `par` op): yield points do not park it
+	staleCand  version.Version // version a resumed removeVersion may drop although it is retained
 	blocked    bool            // waiting for the version-set mutex
 	relVer     version.Version // version whose Dec the thread is parked after
 	zero       bool            // that Dec returned 0
@@ -738,7 +739,7 @@ func (k *kase) beforeResume(t *thr) {
 		if v := t.relVer; v != nil && t.zero {
 			cur, _ := version.VerifC02State(k.fv)
 			if v.NumOfRef() > 0 && v != cur {
-				k.tainted[v.ID()] = true
+				t.staleCand = v // confirmed after the step: only if removeVersion really dropped it
 			}
 		}
 	}
@@ -1128,6 +1129,19 @@ func (k *kase) settleOp(op string, t *thr) (string, string) {
 		return op, "timeout"
 	}
 	res := k.parked(t, got[t])
+	if v := t.staleCand; v != nil {
+		t.staleCand = nil
+		_, act := version.VerifC02State(k.fv)
+		still := false
+		for _, a := range act {
+			if a == v {
+				still = true
+			}
+		}
+		if !still && v.NumOfRef() > 0 {
+			k.tainted[v.ID()] = true
+		}
+	}
 	// threads released by this step: those that do not end up holding the mutex first (they allocated
 	// a file number and went on), ordered by the number they got, then the new holder
 	var woken []*thr
